@@ -384,7 +384,19 @@ def nontrivial(cid, payload, exp):
 
 
 def _space(name, cases, rule, bound, batch=400):
-    return Space(name, RUN, cases, oracle="table", nontrivial=nontrivial, rule=rule, bound=bound, batch=batch)
+    return Space(name, RUN, cases, oracle="table", nontrivial=nontrivial, rule=rule, bound=bound, batch=batch, agree=agree)
+
+
+def agree(exp, obs, cid):
+    # V8 ends an unbounded recursion of the serialiser with its own stack-overflow RangeError (class `stack` in the table); the
+    # engine ends it with a catchable RangeError or one of its limits. Which resource gives out first is not specified.
+    if exp.rpartition("|")[2] == "Estack":
+        return obs.rpartition("|")[2] in ("Ethrow", "Ememory", "Etime")
+    return exp == obs
+
+
+def agree_for_space(name):
+    return agree
 
 
 def core_spaces():
